@@ -111,10 +111,14 @@ func keepAliveLeftovers(rec *vr.Rec, reps int) {
 			rec.Eval(fmt.Sprintf("keepalive-leftovers|%s|%d", kind, rounds))
 			rec.Count("keepalive_leftover_cases", 1)
 			sz := sizes()
-			for try := 0; try < 4 && sz["token_handlers"]+sz["mid_handlers"] != 0; try++ {
+			sim.WaitFor(2*time.Second, func() bool {
+				if sz["token_handlers"]+sz["mid_handlers"] == 0 {
+					return true
+				}
 				time.Sleep(5 * time.Millisecond)
 				sz = sizes()
-			}
+				return false
+			})
 			for _, table := range []string{"token_handlers", "mid_handlers"} {
 				if n := sz[table]; n != 0 {
 					rec.Violation("C13/"+kind+"/keepalive/superseded-ping-leftover/"+table, fmt.Sprintf("%d keep-alive pings were superseded while the peer sent other traffic, the last one was answered; still registered: %s", rounds, sizesStr(sz)), c)
